@@ -169,7 +169,7 @@ PROFILE_C01 = {
     "n_locations": (1, 4), "p_subset": 0.03, "p_remap": 0.04, "p_dim_agg": 0.06, "p_obs_range": 0.25,
     "client_kinds": ["metric_loop", "metric_loop", "metric_loop", "diagram", "diagram", "auto_threshold",
                      "probabilistic", "from_field", "random"],
-    "p_fault_kind": 0.3, "p_pinned": 1.0, "p_axis_all": 0.3,
+    "p_fault_kind": 0.3, "p_pinned": 1.0, "p_axis_all": 0.3, "p_inf": 0.08,
 }
 
 
